@@ -1,7 +1,7 @@
 """Dense-output bookkeeping rules (C06): R-SOL-ERRMAP, R-CONT-LAYOUT, R-SEG-KEEP, R-SEG-LOOKUP."""
 import tast
 import rk
-from poly import Poly
+from poly import Poly, DEFS
 from protocol import SOLVERS, solve_fn
 
 ERRI = "error::InterpolationError::"
@@ -1110,14 +1110,22 @@ def r_span_ends(rep, f):
     sx.bind_params()
     ret = sx.eval(b["body"])
     from poly import DEFS as _D
-    a = ret.single_atom() if isinstance(ret, Poly) else None
-    d = _D.get(a) if a else None
-    tup = None
-    if d and d[0].startswith("call:") and d[0].endswith("Some") and d[1] and isinstance(d[1][0], Poly):
-        ta = d[1][0].single_atom()
-        td = _D.get(ta) if ta else None
-        if td and td[0] == "tuple" and len(td[1]) == 2:
-            tup = td[1]
+    def some_tuples(v, depth=0):
+        """the (start, end) pairs of the `Some((..))` values a returned value can be (a join stands for its alternatives)"""
+        a = v.single_atom() if isinstance(v, Poly) else None
+        d = _D.get(a) if a else None
+        if not d or depth > 3:
+            return []
+        if d[0] == "phi":
+            return [t for x in d[1] if isinstance(x, Poly) for t in some_tuples(x, depth + 1)]
+        if (d[0].startswith("call:") and d[0].endswith("Some") or d[0] == "Some") and d[1] and isinstance(d[1][0], Poly):
+            ta = d[1][0].single_atom()
+            td = _D.get(ta) if ta else None
+            if td and td[0] == "tuple" and len(td[1]) == 2:
+                return [td[1]]
+        return []
+    tups = some_tuples(ret)
+    tup = tups[0] if len(tups) == 1 else None
     if tup is None:
         rep.inconc("R-SPAN-ENDS", key, "t_span does not end in Some((start, end)): %r" % (ret,))
         return
@@ -1129,8 +1137,25 @@ def r_span_ends(rep, f):
         v = sx.st.get(root_key) if sx.st else None
         at = v.single_atom() if isinstance(v, Poly) else None
         dd = _D.get(at) if at else None
-        while dd and dd[0] in ("unwrap", "as_ref") and isinstance(dd[1][0], Poly) and dd[1][0].single_atom():
-            dd = _D.get(dd[1][0].single_atom())
+        if dd is None and isinstance(sx.bound0.get(root_key), Poly):
+            # bound inside a match arm: after the join the state only holds a fresh name; the arm bound it to this value
+            at = sx.bound0[root_key].single_atom()
+            dd = _D.get(at) if at else None
+        for _ in range(8):
+            if not dd or dd[0] in ("first", "last") or not dd[1]:
+                break
+            x0 = dd[1][0]
+            if dd[0] == "proj" and isinstance(x0, Poly) and x0.single_atom() and (_D.get(x0.single_atom()) or ("",))[0] == "tuple" and len(dd[1]) > 1:
+                # a component of a tuple scrutinee: (segs.first(), segs.last()) matched by (Some(a), Some(b))
+                ix = dd[1][1].const_value() if isinstance(dd[1][1], Poly) else dd[1][1]
+                items = _D[x0.single_atom()][1]
+                x0 = items[int(ix)] if ix is not None and int(ix) < len(items) else None
+                dd = _D.get(x0.single_atom()) if isinstance(x0, Poly) and x0.single_atom() else None
+                continue
+            if dd[0] in ("unwrap", "as_ref", "armval", "optval", "proj", "Some") and isinstance(x0, Poly) and x0.single_atom():
+                dd = _D.get(x0.single_atom())
+                continue
+            break
         if dd and dd[0] in ("first", "last"):
             return dd[0], repr(dd[1][0])
         return None, None
@@ -1210,6 +1235,14 @@ def r_seg_width(rep, f):
             rep.inconc("R-SEG-WIDTH", key, "the DenseSegment::new call was not reached by the interpreter", b.get("sp"))
             continue
         bad = None
+        # a width handed through unchanged (a field of the step record, a parameter) is the step taken, not a width the
+        # library chose: those segments are the stored steps' (R-SEG-KEEP / R-SEG-FIELDS)
+        is_passed = lambda v: isinstance(v, Poly) and bool(v.single_atom()) and v == Poly.atom(v.single_atom()) and v.single_atom() not in DEFS
+        passed = [g_ for g_ in got if is_passed(g_[0])]
+        got = [g_ for g_ in got if not is_passed(g_[0])]
+        if passed and not got:
+            rep.ok("R-SEG-WIDTH", key, "the width is handed through unchanged (%s): a copy of a step record" % passed[0][0], nontrivial=False)
+            continue
         for v, node in got:
             n_sites += 1
             if not isinstance(v, Poly):
